@@ -144,6 +144,14 @@ def branch_passthrough_violations(f) -> Iterator[Tuple[ast.Call, str]]:
                 yield c, k
 
 
+# a parameter that is accepted and deliberately not used, with the reason the source itself gives
+FORWARD_EXEMPT = {
+    ("UnshapedComponent.getBoundingCircleOuterDiameter", "Tc"): "docstring: 'Tc is not used in this method for this particular component' (the area has no thermal expansion model)",
+    ("DerivedShape.getBoundingCircleOuterDiameter", "Tc"): "docstring: the value is only used to sort components (must be smaller than at least one)",
+    ("DerivedShape.getBoundingCircleOuterDiameter", "cold"): "docstring: the value is only used to sort components (must be smaller than at least one)",
+}
+
+
 def pairing_rule(idx, r, prefixes: Iterable[str], min_resolved: int = 20):
     """The three rules over every function of the modules named by `prefixes` (the property's anchor modules)."""
     from .index import AnchorMissing
@@ -161,8 +169,41 @@ def pairing_rule(idx, r, prefixes: Iterable[str], min_resolved: int = 20):
         for c, k in same_callee_passthrough_violations(f):
             r.violate(f"{f.qualname}:{k}-passed-through-in-every-sibling-call", f, f"`{str(norm(c))[:90]}` fixes `{k}` to a literal while the sibling calls to the same function pass the caller's `{k}` through: "
                       f"for any other `{k}` this call computes with the wrong option", node=c)
+        for c, k in dropped_forward_violations(idx, f):
+            if (f.qualname, k) in FORWARD_EXEMPT:
+                continue
+            r.violate(f"{f.qualname}:{k}-handed-on", f, f"{f.qualname} accepts `{k}` and never reads it, while `{str(norm(c))[:80]}` could take it: the caller's `{k}` is silently dropped", node=c)
         for c, k in branch_passthrough_violations(f):
             r.violate(f"{f.qualname}:{k}-forwarded-by-every-branch", f, f"`{str(norm(c))[:90]}` does not forward `{k}` although the sibling branch does: the caller's `{k}` is silently ignored on this branch", node=c)
     if resolved < min_resolved:
         raise AnchorMissing(f"only {resolved} resolved call sites under {list(prefixes)}")
     r.ok("resolved-call-sites-scanned", ", ".join(prefixes), msg=f"{resolved} call sites with a resolved callee")
+
+
+def dropped_forward_violations(idx, f) -> Iterator[Tuple[ast.Call, str]]:
+    """A parameter of f that f never reads, while f calls a resolved callee that HAS a parameter of that name and is not given it:
+    the wrapper accepts the option and silently drops it."""
+    a = f.node.args
+    mine = [x.arg for x in a.posonlyargs + a.args + a.kwonlyargs if x.arg not in ("self", "cls")]
+    if not mine:
+        return
+    read = {x.id for x in walk_local(f.node) if isinstance(x, ast.Name) and isinstance(x.ctx, ast.Load)}
+    unread = [p for p in mine if p not in read and not p.startswith("_")]
+    if not unread:
+        return
+    for c in iter_calls(f.node):
+        if any(isinstance(x, ast.Starred) for x in c.args) or any(k.arg is None for k in c.keywords):
+            continue
+        r = resolve_callee(idx, f, c)
+        if r is None:
+            continue
+        g, skip = r
+        ga = g.node.args
+        gp = [x.arg for x in ga.posonlyargs + ga.args][skip:]
+        gk = gp + [x.arg for x in ga.kwonlyargs]
+        for p in unread:
+            if p not in gk:
+                continue
+            given = any(k.arg == p for k in c.keywords) or (p in gp and gp.index(p) < len(c.args))
+            if not given:
+                yield c, p
